@@ -149,9 +149,20 @@ package dag
 // Apply may change the snapshot in any way except its list of operations (every implementation under
 // contract has a modifies clause without it), and is logged.
 //@ func OperationWithApply.Apply
-//@   modifies * except all(bug.Snapshot.Operations), allelems(Operation), allelems(bug.Operation)
+//@   modifies * except all(bug.Snapshot.Operations), allelems(Operation), allelems(bug.Operation), sync.mheld, sync.rwheld, all(cache.withSnapshot.snap)
 //@   ensures [logged] applyCount == old(applyCount) + 1 && applied == update(old(applied), old(applyCount), recv) && appliedOn == update(old(appliedOn), old(applyCount), snapshot)
 
 //@ func (*Entity).Id
 //@   trusted
 //@   modifies nothing
+
+// What the cache's snapshot wrapper assumes of the wrapped entity and of the snapshot (C10): they do not
+// touch the wrapper's cached snapshot pointer, the Apply log or the lock state.
+//@ func Interface.Append
+//@   modifies * except applyCount, applied, appliedOn, sync.mheld, sync.rwheld, all(cache.withSnapshot.snap)
+//@ func Interface.Commit
+//@   modifies * except applyCount, applied, appliedOn, sync.mheld, sync.rwheld, all(cache.withSnapshot.snap)
+//@ func Interface.Compile
+//@   modifies * except sync.mheld, sync.rwheld, all(cache.withSnapshot.snap)
+//@ func Snapshot.AppendOperation
+//@   modifies * except applyCount, applied, appliedOn, sync.mheld, sync.rwheld, all(cache.withSnapshot.snap)
